@@ -126,6 +126,11 @@ pub trait Prop: Sync {
     fn run_wall_limit_s() -> u64 {
         20
     }
+    /// may runs of this property have logging switched on? (no for measurements of allocation: formatting
+    /// log events allocates, and how much depends on what the thread formatted before)
+    fn logging_allowed() -> bool {
+        true
+    }
     fn extra_evidence(_tier: Tier) -> Value {
         json!({})
     }
@@ -221,6 +226,9 @@ pub enum RunOutcome {
 }
 
 pub fn run_caught<P: Prop>(scn: &P::Scn, st: &mut RunStats) -> RunOutcome {
+    if !P::logging_allowed() {
+        crate::logsim::set(false);
+    }
     quiet_panics(true);
     let _ = take_last_panic();
     let r = catch_unwind(AssertUnwindSafe(|| P::run(scn, st)));
@@ -447,13 +455,13 @@ pub fn run_batch<P: Prop>(o: &Opts) -> i32 {
                     }
                     let mut st = RunStats::default();
                     // configuration dimension: one run in four has logging switched on (log arguments are evaluated)
-                    crate::logsim::set(i % 4 == 1);
+                    crate::logsim::set(P::logging_allowed() && i % 4 == 1);
                     let _ = crate::logsim::take_events();
                     let out = run_caught::<P>(&scn, &mut st);
                     if crate::logsim::is_on() {
                         st.fault_n("logging_enabled_log_events_formatted", crate::logsim::take_events());
                     }
-                    crate::logsim::set(true);
+                    crate::logsim::set(P::logging_allowed());
                     cur[w].0.store(0, Ordering::Relaxed);
                     let (found, sutp, herr) = match out {
                         RunOutcome::Ok => (None, None, None),
